@@ -11,7 +11,7 @@ PROPERTY = "C07"
 LEVEL = "exploration"
 RULE = ("seeded random well-formed histories (10-40 operations: store, metadata update in read-modify-write and fresh "
         "style, remove, makedir, empty and recursive removedir) over a 12-key universe with nesting to depth 3, siblings, "
-        "dotted names and prefix-confusable keys, for 16 configurations (memory and directory store: plain, ProxyStore, "
+        "dotted names and prefix-confusable keys, for 18 configurations (memory and directory store: plain, ProxyStore, "
         "IndexerStore, overlay with empty fall-back, mount-point default store, mounted under a prefix, default global "
         "composition). After every operation all reads of all keys are compared with the model. Evaluations = operations "
         "applied; a history is non-trivial when it has >= 5 operations including a removal; distinct = distinct "
